@@ -195,6 +195,11 @@ async fn run_hist(rest: &str) -> String {
     let wrong_typed: Arc<Mutex<Vec<String>>> = Arc::new(Mutex::new(Vec::new()));
     let (watch, _wh) = Actor::spawn(None, PidWatch, pidlog.clone()).await.expect("watch");
     ractor::registry::pid_registry::monitor(watch.get_cell());
+    // a supervisor that has already stopped: linked spawns under it fail in start() ("Supervisor is
+    // shutting down") AFTER the cell was enrolled; the lifecycle guard must release name and pid
+    let (deadsup, dsh) = Actor::spawn(None, Quiet, ()).await.expect("deadsup");
+    deadsup.stop(None);
+    let _ = dsh.await;
     let hist: Arc<Mutex<Vec<String>>> = Arc::new(Mutex::new(Vec::new()));
     let mut slots: HashMap<u64, Slot> = HashMap::new();
     let mut order: Vec<u64> = Vec::new();
@@ -251,12 +256,21 @@ async fn run_hist(rest: &str) -> String {
                 let done = slot.done.clone();
                 let full = name.map(nm);
                 let supc = sup.get_cell();
+                let deadc = deadsup.get_cell();
+                let linked_dead = kind == "lfail";
+                let pid_events_before = pidlog.lock().unwrap().len();
                 let sp = tl.then(|| spawner.get_or_insert_with(ThreadLocalActorSpawner::new).clone());
                 tasks.push(tokio::spawn(async move {
                     let r = if remote {
                         ActorRuntime::<H>::spawn_linked_remote(full, H, ActorId::Remote { node_id: 9, pid: 1000 + a }, cfg, supc).await
                     } else if let Some(sp) = sp {
-                        <H as ThreadLocalActor>::spawn(full, cfg, sp).await
+                        if linked_dead {
+                            <H as ThreadLocalActor>::spawn_linked(full, cfg, deadc, sp).await
+                        } else {
+                            <H as ThreadLocalActor>::spawn(full, cfg, sp).await
+                        }
+                    } else if linked_dead {
+                        Actor::spawn_linked(full, H, cfg, deadc).await
                     } else {
                         Actor::spawn(full, H, cfg).await
                     };
@@ -289,7 +303,12 @@ async fn run_hist(rest: &str) -> String {
                 if !already && !remote {
                     h.push(format!("EPid {a}"));
                 }
-                if kind == "fail" && !already {
+                if already && pidlog.lock().unwrap().len() > pid_events_before {
+                    // a spawn rejected at the name step was announced to the pid lifecycle subscribers:
+                    // its pid entry did exist — say so (the oracle rejects a pid insertion of a loser)
+                    h.push(format!("EPid {a}"));
+                }
+                if (kind == "fail" || kind == "lfail") && !already {
                     h.push(format!("EBegin {a}"));
                 }
                 drop(h);
